@@ -323,8 +323,14 @@ func genCmdFacts(repo string) (text string, err error) {
 	}
 	var inventory []fileRow
 	var registered [][3]string
-	var types [][3]interface{}
-	var cmdFns []gbFn // the command functions of all commands, named `stem/fn`, for the derived tables
+	pipe := func(name string, f gbFn) {
+		rows := cmdPipeline(f)
+		fmt.Fprintf(&b, "/-- the LIBRARY PIPELINE of `%s`: every call of a function or value of package `gts` / `seqio` and every method\ncall on a library value (`.Features()`, `.Filter(…)`, `.Insert(…)`, `.WriteSeq(…)`, `.Scan()` …) in source order, each with\nthe KINDS of the headers it stands under.  No variable name and no line number occurs in it: a rewrite of the option\nhandling or of the error paths keeps it; a library call that is added, dropped, replaced or moved under / out of a\ncondition or a loop changes it. -/\ndef pipeline_%s : List (String × List String) := [\n", f.name, name)
+		for j, r := range rows {
+			fmt.Fprintf(&b, "  (%s, %s)%s\n", leanString(r.callee), leanStrs(r.under), sepComma(j, len(rows)))
+		}
+		b.WriteString("]\n\n")
+	}
 	for _, fn := range names {
 		src, perr := parseSource(filepath.Join(dir, fn))
 		if perr != nil {
@@ -334,8 +340,8 @@ func genCmdFacts(repo string) (text string, err error) {
 		if !known {
 			tie = "new"
 		}
-		inventory = append(inventory, fileRow{fn, tie, cmdDeclNames(src)})
 		stem := strings.TrimSuffix(fn, ".go")
+		decls := cmdDeclNames(src)
 		regs := cmdRegistered(src)
 		for _, r := range regs {
 			registered = append(registered, [3]string{fn, r[0], r[1]})
@@ -344,10 +350,16 @@ func genCmdFacts(repo string) (text string, err error) {
 		for _, r := range regs {
 			isCmdFn[r[1]] = true
 		}
+		if tie != "facts" {
+			inventory = append(inventory, fileRow{fn, tie, decls})
+		} else {
+			inventory = append(inventory, fileRow{fn, tie, nil})
+		}
 		if tie != "facts" && tie != "gcli" {
 			continue
 		}
 		var all []gbFn
+		var cmdFn *gbFn
 		for _, d := range src.file.Decls {
 			fd, ok := d.(*ast.FuncDecl)
 			if !ok || fd.Body == nil {
@@ -359,10 +371,14 @@ func genCmdFacts(repo string) (text string, err error) {
 			fns := cmdPrintDecl(src, fd)
 			all = append(all, fns...)
 			if fd.Recv == nil && isCmdFn[fd.Name.Name] {
-				cmdFns = append(cmdFns, gbFn{name: stem + "/" + fd.Name.Name, lines: fns[0].lines})
+				cmdFn = &gbFn{name: stem + "/" + fd.Name.Name, lines: fns[0].lines}
 			}
 		}
 		if tie == "gcli" {
+			// the normal form of a multi-site command is generated for its pipeline only
+			if cmdFn != nil {
+				pipe(cmdMangle(stem), *cmdFn)
+			}
 			continue
 		}
 		for _, f := range all {
@@ -377,23 +393,34 @@ func genCmdFacts(repo string) (text string, err error) {
 			fmt.Fprintf(&b, "  (%s, fn_%s_%s)%s\n", leanString(f.name), cmdMangle(stem), cmdMangle(f.name), sepComma(i, len(all)))
 		}
 		b.WriteString("]\n\n")
+		fmt.Fprintf(&b, "/-- cmd/gts/%s: its top-level declarations in source order -/\ndef decls_%s : List String := %s\n\n", fn, cmdMangle(stem), leanStrs(decls))
+		var types [][2]interface{}
 		func() {
 			defer func() {
 				if r := recover(); r != nil {
 					if rf, ok := r.(refusal); ok {
-						types = append(types, [3]interface{}{fn, "refused", []string{rf.msg}})
+						types = [][2]interface{}{{"refused", []string{rf.msg}}}
 						return
 					}
 					panic(r)
 				}
 			}()
-			for _, s := range ioStructs(src) {
-				types = append(types, [3]interface{}{fn, s[0].(string), s[1].([]string)})
-			}
+			types = ioStructs(src)
 		}()
+		fmt.Fprintf(&b, "/-- cmd/gts/%s: the types it declares (a struct field by field / another type as `= T`) -/\ndef types_%s : List (String × List String) := [", fn, cmdMangle(stem))
+		for i, t := range types {
+			fmt.Fprintf(&b, "\n  (%s, %s)%s", leanString(t[0].(string)), leanStrs(t[1].([]string)), sepComma(i, len(types)))
+		}
+		if len(types) > 0 {
+			b.WriteString("\n")
+		}
+		b.WriteString("]\n\n")
+		if cmdFn != nil {
+			pipe(cmdMangle(stem), *cmdFn)
+		}
 	}
 
-	b.WriteString("/-- the inventory of cmd/gts: (file, how it is tied — `facts`: every function in normal form here; `gcli`: the\nper-record step regenerated by go2lean/gcli_cmds.go; `iodelegate`: go2lean/iodelegate.go; `untied`; `new`: a file\nthe generator does not know —, its top-level declarations in source order) -/\ndef files : List (String × String × List String) := [\n")
+	b.WriteString("/-- the inventory of cmd/gts: (file, how it is tied — `facts`: every function in normal form here, declarations in\n`decls_<file>`; `gcli`: the per-record step regenerated by go2lean/gcli_cmds.go; `iodelegate`: go2lean/iodelegate.go;\n`untied`; `new`: a file the generator does not know —, for a file that is not `facts` its top-level declarations in\nsource order) -/\ndef files : List (String × String × List String) := [\n")
 	for i, r := range inventory {
 		fmt.Fprintf(&b, "  (%s, %s, %s)%s\n", leanString(r.file), leanString(r.tie), leanStrs(r.decls), sepComma(i, len(inventory)))
 	}
@@ -401,23 +428,6 @@ func genCmdFacts(repo string) (text string, err error) {
 	b.WriteString("/-- the `flags.Register(name, help, fn)` calls of the `init` functions: (file, command name, command function) -/\ndef registered : List (String × String × String) := [\n")
 	for i, r := range registered {
 		fmt.Fprintf(&b, "  (%s, %s, %s)%s\n", leanString(r[0]), leanString(r[1]), leanString(r[2]), sepComma(i, len(registered)))
-	}
-	b.WriteString("]\n\n")
-	b.WriteString("/-- the types the `facts` files declare: (file, type, a struct field by field / another type as `= T`) -/\ndef types : List (String × String × List String) := [\n")
-	for i, t := range types {
-		fmt.Fprintf(&b, "  (%s, %s, %s)%s\n", leanString(t[0].(string)), leanString(t[1].(string)), leanStrs(t[2].([]string)), sepComma(i, len(types)))
-	}
-	b.WriteString("]\n\n")
-
-	// --- derived: the library pipeline of every command function
-	b.WriteString("/-- the LIBRARY PIPELINE of the command function of every command (the six `gcli` ones included): every call of a\nfunction or value of package `gts` / `seqio` and every method call on a value (`.Features()`, `.Filter(…)`, `.Insert(…)`,\n`.WriteSeq(…)`, `.Scan()` …) in source order, each with the KINDS of the headers it stands under (`if`, `for`, `range`,\n`switch`, `case`, `else` …).  No variable name and no line number occurs in it: a rewrite of the option handling or of\nthe error paths keeps it, a library call that is added, dropped, replaced or moved under / out of a condition or a loop\nchanges it. -/\ndef pipeline : List (String × List (String × List String)) := [\n")
-	for i, f := range cmdFns {
-		rows := cmdPipeline(f)
-		fmt.Fprintf(&b, "  (%s, [\n", leanString(f.name))
-		for j, r := range rows {
-			fmt.Fprintf(&b, "    (%s, %s)%s\n", leanString(r.callee), leanStrs(r.under), sepComma(j, len(rows)))
-		}
-		fmt.Fprintf(&b, "  ])%s\n", sepComma(i, len(cmdFns)))
 	}
 	b.WriteString("]\n\n")
 	b.WriteString("end Gts.Gen.Cmd\n")
